@@ -18,27 +18,42 @@ pub enum AnyHand {
     H7(Seven),
 }
 
+thread_local! {
+    static PLACE: std::cell::Cell<usize> = std::cell::Cell::new(0);
+}
+/// rotating memory placement for the next container call (see `at_offset` below)
+#[inline]
+fn next_k() -> usize {
+    PLACE.with(|p| {
+        let k = p.get();
+        p.set(k.wrapping_add(1));
+        k
+    })
+}
+
+// Every method of the adapter copies the inner container to the next of the four 4-byte placements of a 16-byte
+// block and calls the REAL method on a reference to that copy, so that every property exercises every placement.
 macro_rules! each {
     ($s:expr, $h:ident => $e:expr) => {
         match $s {
-            AnyHand::H2($h) => $e,
-            AnyHand::H3($h) => $e,
-            AnyHand::H4($h) => $e,
-            AnyHand::H5($h) => $e,
-            AnyHand::H6($h) => $e,
-            AnyHand::H7($h) => $e,
+            AnyHand::H2(x) => at_offset(next_k(), *x, |$h| $e),
+            AnyHand::H3(x) => at_offset(next_k(), *x, |$h| $e),
+            AnyHand::H4(x) => at_offset(next_k(), *x, |$h| $e),
+            AnyHand::H5(x) => at_offset(next_k(), *x, |$h| $e),
+            AnyHand::H6(x) => at_offset(next_k(), *x, |$h| $e),
+            AnyHand::H7(x) => at_offset(next_k(), *x, |$h| $e),
         }
     };
 }
 macro_rules! map_each {
     ($s:expr, $h:ident => $e:expr) => {
         match $s {
-            AnyHand::H2($h) => AnyHand::H2($e),
-            AnyHand::H3($h) => AnyHand::H3($e),
-            AnyHand::H4($h) => AnyHand::H4($e),
-            AnyHand::H5($h) => AnyHand::H5($e),
-            AnyHand::H6($h) => AnyHand::H6($e),
-            AnyHand::H7($h) => AnyHand::H7($e),
+            AnyHand::H2(x) => AnyHand::H2(at_offset(next_k(), *x, |$h| $e)),
+            AnyHand::H3(x) => AnyHand::H3(at_offset(next_k(), *x, |$h| $e)),
+            AnyHand::H4(x) => AnyHand::H4(at_offset(next_k(), *x, |$h| $e)),
+            AnyHand::H5(x) => AnyHand::H5(at_offset(next_k(), *x, |$h| $e)),
+            AnyHand::H6(x) => AnyHand::H6(at_offset(next_k(), *x, |$h| $e)),
+            AnyHand::H7(x) => AnyHand::H7(at_offset(next_k(), *x, |$h| $e)),
         }
     };
 }
@@ -126,27 +141,27 @@ impl AnyHand {
             };
         }
         match self {
-            AnyHand::H5(h) => go!(h),
-            AnyHand::H6(h) => go!(h),
-            AnyHand::H7(h) => go!(h),
+            AnyHand::H5(x) => at_offset(next_k(), *x, |h| go!(h)),
+            AnyHand::H6(x) => at_offset(next_k(), *x, |h| go!(h)),
+            AnyHand::H7(x) => at_offset(next_k(), *x, |h| go!(h)),
             _ => None,
         }
     }
     #[inline]
     pub fn value_validated(&self) -> Option<u16> {
         match self {
-            AnyHand::H5(h) => Some(h.hand_rank_value_validated()),
-            AnyHand::H6(h) => Some(h.hand_rank_value_validated()),
-            AnyHand::H7(h) => Some(h.hand_rank_value_validated()),
+            AnyHand::H5(x) => Some(at_offset(next_k(), *x, |h| h.hand_rank_value_validated())),
+            AnyHand::H6(x) => Some(at_offset(next_k(), *x, |h| h.hand_rank_value_validated())),
+            AnyHand::H7(x) => Some(at_offset(next_k(), *x, |h| h.hand_rank_value_validated())),
             _ => None,
         }
     }
     #[inline]
     pub fn value(&self) -> Option<u16> {
         match self {
-            AnyHand::H5(h) => Some(h.hand_rank_value()),
-            AnyHand::H6(h) => Some(h.hand_rank_value()),
-            AnyHand::H7(h) => Some(h.hand_rank_value()),
+            AnyHand::H5(x) => Some(at_offset(next_k(), *x, |h| h.hand_rank_value())),
+            AnyHand::H6(x) => Some(at_offset(next_k(), *x, |h| h.hand_rank_value())),
+            AnyHand::H7(x) => Some(at_offset(next_k(), *x, |h| h.hand_rank_value())),
             _ => None,
         }
     }
